@@ -26,6 +26,11 @@ let dec_of_n n =
     S.concat "" (L.map string_of_int (strip (L.rev !digits)))
   end
 let dec_of_z z = string_of_int (int_of_z z)
+(* any Z (time codes are int64 nanoseconds: beyond an OCaml int) *)
+let dec_of_zbig z = match z with
+  | BinNums.Z0 -> "0"
+  | BinNums.Zpos p -> dec_of_n (BinNums.Npos p)
+  | BinNums.Zneg p -> "-" ^ dec_of_n (BinNums.Npos p)
 
 let triple_colon e = match split_on ':' e with
   | [a; b; c] -> ((n_of_dec a, n_of_dec b), n_of_dec c) | _ -> failwith "stsc entry"
@@ -153,6 +158,8 @@ let run_query (tb : tables) (q : string) : string =
   match L.hd f with
   | "dt" -> res_str (fun (t, d) -> dec_of_n t ^ "/" ^ dec_of_n d) (stts_get_decode_time cs ds (a 1))
   | "du" -> res_str dec_of_n (stts_get_dur cs ds (a 1))
+  | "tc" -> res_str dec_of_zbig ((if !pinned then C09TimeCodeModel.stts_get_time_code_pinned
+                                  else C09TimeCodeModel.stts_get_time_code) cs ds (a 1) (a 2))
   | "st" -> res_str dec_of_n (stts_get_sample_nr_at_time cs ds (a 1))
   | "ct" -> (match tb.t_ctts with None -> "panic" | Some c -> res_str dec_of_z (ctts_get_cto c (a 1)))
   | "ce" -> (match tb.t_ctts with None -> "panic" | Some c -> "ok/" ^ join0 "," dec_of_n c.ct_end)
